@@ -166,6 +166,17 @@ static void run(Src &s) {
   };
 
   // ---- with the restrictions in force
+  // an earlier read in the same process, under a requirement every file satisfies, must not make anything "known
+  // good" for the reads that follow under other rules
+  if (s.chance(30)) {
+    g_case.tag("permissive_read_first");
+    econf_requirePermissions(S_IRUSR, S_IXUSR);
+    ReadResult r0;
+    Observed ob0;
+    bool have0 = false;
+    std::vector<Observed> hob0;
+    do_read(r0, ob0, have0, hob0);
+  }
   // the setters are independent of each other: any order, an explicit "follow symbolic links" when that rule is
   // off, and a permission rule that every generated file and directory satisfies must not change the outcome
   {
